@@ -47,6 +47,9 @@ func shared(id string, runs ...func(*core.Ctx)) func(*core.Ctx) {
 // (placeholders such as `return 0, 0, 0, err` of a helper expanded in place) is rendered as that one operand.
 func bindLivePhis(sx *core.Symx, fn *ssa.Function, use ssa.Instruction) {
 	isUse := func(x ssa.Instruction) bool { return x == use }
+	// live operands per Phi
+	liveOf := map[*ssa.Phi][]ssa.Value{}
+	var phis []*ssa.Phi
 	for _, b := range fn.Blocks {
 		for _, ins := range b.Instrs {
 			phi, ok := ins.(*ssa.Phi)
@@ -61,11 +64,28 @@ func bindLivePhis(sx *core.Symx, fn *ssa.Function, use ssa.Instruction) {
 					live = append(live, e)
 				}
 			}
-			if len(live) == 1 && len(phi.Edges) > 1 {
-				if _, isPhi := live[0].(*ssa.Phi); !isPhi {
-					sx.Bind(phi, sx.Of(live[0]).String())
-				}
+			liveOf[phi] = live
+			phis = append(phis, phi)
+		}
+	}
+	// a Phi with one live operand is that operand; when the operand is itself such a Phi, follow it (nested expansions
+	// merge the same value twice)
+	bound := map[*ssa.Phi]string{}
+	for round := 0; round < 4; round++ {
+		for _, phi := range phis {
+			live := liveOf[phi]
+			if bound[phi] != "" || len(live) != 1 || len(phi.Edges) <= 1 {
+				continue
 			}
+			if inner, isPhi := live[0].(*ssa.Phi); isPhi {
+				if s := bound[inner]; s != "" {
+					bound[phi] = s
+					sx.Bind(phi, s)
+				}
+				continue
+			}
+			bound[phi] = sx.Of(live[0]).String()
+			sx.Bind(phi, bound[phi])
 		}
 	}
 }
